@@ -176,6 +176,17 @@ fn gen_m3(ch: &mut Ch, thorough: bool) -> Option<Case> {
     Some(Case { gen: "m3", vector: ch.vector(), ts, derived, entry })
 }
 
+/// every case of the three generators (used by C20 as well)
+pub fn all_cases(thorough: bool) -> (Vec<Case>, crate::explore::Stats) {
+    let mut cases = Vec::new();
+    let mut stats = crate::explore::Stats::default();
+    for g in [gen_m1 as fn(&mut Ch, bool) -> Option<Case>, gen_m2, gen_m3] {
+        let st = explore(|ch| g(ch, thorough), |_, c| cases.push(c));
+        stats.add(&st);
+    }
+    (cases, stats)
+}
+
 fn atoms_of(c: &Case) -> BTreeSet<String> {
     let mut a = BTreeSet::new();
     a.insert(format!("gen={}", c.gen));
